@@ -16,7 +16,20 @@ leg 1  `cvh replay ptg8`: every token list becomes the rgce of a FORMULA record 
 (leg 2 is not built for this property: parse_formula has no observable intermediate state without
 hooks; the xlsb / xlsx / ods parts of C14 belong to other modules.)
 
-sensitivity: see the end of this docstring
+sensitivity: bin/mutant C14 ... quick -- 9 of 11 killed, 2 equivalent:
+sensitivity: seeded C16 change (defined name's sheet = sheet_names[ixti], seeded/C16-xti/patch.diff)      KILLED (replay lbl8)
+sensitivity: s/if col \& 0x4000 == 0 {/if col \& 0x8000 == 0 {/            column $ from the row bit        KILLED
+sensitivity: s/let e2 = formula.split_off(e2);/...split_off(e2.saturating_sub(1));/ binary operator offset     KILLED
+sensitivity: s/0x13 => {/0x13 if false => {/                               unary minus unrecognised         KILLED
+sensitivity: s/sheets.get(xti.itab_first as usize)/sheets.get(xti._itab_last as usize + 1)/  XTI field      KILLED
+sensitivity: s/"{}", row as u32 + 1/"{}", row as u32/                      row off by one                   KILLED
+sensitivity: s/rgce = &rgce\[1 + used..\];/rgce = &rgce[2 + cch..];/        16-bit PtgStr length (reverts acfc4f9) KILLED
+sensitivity: s/col = col \/ 26 - 1;/col = col \/ 26;/@src/utils.rs         push_column bijective step       KILLED
+sensitivity: s/\*s -= start;/*s -= 0;/                                     function argument offsets        KILLED
+sensitivity: s/col \& 0x3FFF/col \& 0xFF/        SURVIVED -- equivalent: BIFF8 columns are 0..255
+sensitivity: s/stack.len() - argc/stack.len() - argc.min(stack.len()).max(1)/ SURVIVED -- equivalent (argc >= 1 and <= len there)
+sensitivity: the seven fix: commits bfc8492..3cb7b97 were each observed on the real code before the fix
+sensitivity:   (MC_PtgBiff8_aswas.cfg keeps the pinned transcription: 456 of 538 single-reference formulas differ)
 """
 LEVEL = "model_checking"
 
